@@ -28,17 +28,21 @@ import os, sys, re, json, subprocess, time, importlib
 import vcommon
 from vcommon import VERIF
 
-PROPS = ["Bee2V/C07/Props.lean", "Bee2V/Gen/C07UseW64.lean", "Bee2V/Gen/C07UseW32.lean"]
+NPARTS = 8     # must equal x_c07_use.NPARTS (checked in translate)
+PROPS = ["Bee2V/C07/Props.lean"] + ["Bee2V/Gen/C07Use%s_%d.lean" % (w, i) for w in ("W64", "W32") for i in range(NPARTS)]
 CFGS = {"W64": "asan-dbg", "W32": "w32-dbg"}
 
 # Obligations that are generated but not provable with what the translators extract today.
 # Each entry: function -> what is missing.  They are not theorems; ASan runs at exact size
 # cover them as samples.  (regex on the function key)
 OPEN = [
-    (r"bign(96)?[A-Z]\w*|bakeSWU|g12sEcCreate", "needs the post-condition of bignStart/ecpCreateJ (ec->hdr.keep, ec->f->n, ec->d, ec->deep, ec->f->deep "
-     "in terms of l) and monotonicity of the depth formulas in f_deep/ec_deep; not extracted"),
+    (r"bign96ParamsVal|bign96Verify|bignIdSign2|bignParamsVal|bignSign2|g12sEcCreate",
+     "post-conditions of bignStart/ecpCreateJ are available, but the arithmetic goal is too large for omega within the heartbeat limit "
+     "(many-way max in bignSign2_deep/bignParamsVal_deep/ecAddMulA_deep) or needs monotonicity of a callee depth in a run-time size"),
+    (r"ppMinPolyMod", "l = ppDeg(mod) is read from data: unconstrained in the model, the obligation needs l <= n * B_PER_W"),
     (r"ecpIsSafeGroup|ec2IsSafeGroup", "callee sizes are run-time normalised (n1' <= n + 1): needs monotonicity of priIsPrime_deep/zzMod_deep in n"),
-    (r"pfok\w+|priIsSGPrime|zzPowerMod", "needs the post-condition of zmCreate/zmMontCreate (r->n = W_OF_O(no), r->deep <= zm*Create_deep(no))"),
+    (r"pfok(DH|MTI|ParamsVal|PubkeyCalc)|priIsSGPrime|zzPowerMod", "post-condition of zmCreate/zmMontCreate is available; the goal needs monotonicity of "
+     "zmCreate_deep/qrPower_deep in the run-time normalised octet length (no' <= O_OF_W(n)) — not proved"),
 ]
 
 
@@ -69,9 +73,12 @@ def translate(ctx):
         dtext, items, dunh = xd.gen_lean(tree, w)
         ob = xu.Obligations(tree, items, dunh).analyse()
         skip = {k: open_reason(k) for k in ob.results if open_reason(k)}
-        utext, proved, opened = xu.gen_lean(ob, w, skip)
+        if xu.NPARTS != NPARTS:
+            raise xc.Unhandled("NPARTS mismatch between props/C07.py and x_c07_use.py")
+        ufiles, proved, opened = xu.gen_lean_parts(ob, w, skip)
         ctx.regen("Bee2V/Gen/C07Deep%s.lean" % w, dtext)
-        ctx.regen("Bee2V/Gen/C07Use%s.lean" % w, utext)
+        for sfx, utext in ufiles.items():
+            ctx.regen("Bee2V/Gen/C07Use%s%s.lean" % (w, sfx), utext)
         info[w] = {"tree": tree, "items": items, "deep_unhandled": dunh, "ob": ob, "proved": proved, "open": opened,
                    "cfiles": xd.gen_c(tree, items), "partial_tus": list(tree.partial)}
     return info
@@ -383,9 +390,9 @@ def run(ctx):
     proof_ok, log = ctx.prove(["Bee2V.C07.Props", "Bee2V.Gen.C07UseW64", "Bee2V.Gen.C07UseW32"], PROPS)
     failing_thms = []
     if not proof_ok:
-        for m in re.finditer(r"error: (\S*C07Use(W\d\d)\.lean):(\d+)", log):
-            src = open(os.path.join(vcommon.LEAN, "Bee2V", "Gen", "C07Use%s.lean" % m.group(2))).read().split("\n")
-            ln = int(m.group(3))
+        for m in re.finditer(r"error: (\S*C07Use(W\d\d)(_\d+)\.lean):(\d+)", log):
+            src = open(os.path.join(vcommon.LEAN, "Bee2V", "Gen", "C07Use%s%s.lean" % (m.group(2), m.group(3)))).read().split("\n")
+            ln = int(m.group(4))
             nm = None
             for i in range(min(ln, len(src)) - 1, -1, -1):
                 mm = re.match(r"theorem (\S+)", src[i])
